@@ -45,9 +45,9 @@ def scenario(rng, ident):
             s += ["call/c%d/%s/%s/%d/-/0" % (n, me.hex(), T(scn.arg(n, pad)), ct),
                   "replyto/%d/%s/%d" % (n, T(scn.arg(n, rpad)), ct if ct in (1, 2) else 0), "await/c%d" % n]
             wants.append("callc~%d~withreply" % n)
-        elif k == 5:    # served call
+        elif k == 5:    # served call (now and then with a result too large for the frame limit: whatever is then written back is accounted)
             seq = 200 + n
-            s += [scn.feed_call(seq, n, meth=me, pad=pad), "waithandlers/%d" % (hid + 1), scn.finish(hid, n, pad=rng.below(40)), "settle"]
+            s += [scn.feed_call(seq, n, meth=me, pad=pad), "waithandlers/%d" % (hid + 1), scn.finish(hid, n, pad=(2500 if rng.chance(1, 4) else rng.below(40))), "settle"]
             hid += 1
             wants.append("call~%d~served" % n)
         elif k == 9:    # incoming call for a method / protocol nobody registered: answered with an error, and accounted
